@@ -23,8 +23,15 @@ import (
 	core "k8s.io/client-go/testing"
 )
 
+// Tick is the concrete length of one abstract tick. In the default mode time is virtual (one hour, produced by moving every
+// stored instant into the past). In real-time mode (RealTime) a tick is a few seconds of real sleeping, so that any time the
+// code under test remembers ages by itself (memory the harness does not know about included).
+var (
+	Tick     = time.Hour
+	RealTime = false
+)
+
 const (
-	Tick        = time.Hour
 	LabelKey    = "grp"
 	TaintKey    = "atlassian.com/escalator"
 	ForceKey    = "atlassian.com/escalator-force"
@@ -62,6 +69,9 @@ type World struct {
 	Order   map[string][]string
 	podSeq  int
 	lastGet map[string]*v1.Node
+	T0      time.Time // real-time mode: concrete time of abstract instant 0
+	Late    bool      // real-time mode: a step overran its tick budget; the history is no longer trustworthy
+	NoGauges bool
 }
 
 type builder struct{ w *World }
@@ -75,6 +85,9 @@ func (w *World) TimeOf(x int) time.Time {
 	if x <= Never {
 		return time.Time{}
 	}
+	if RealTime {
+		return w.T0.Add(time.Duration(x) * Tick)
+	}
 	return time.Now().Add(-time.Duration(w.Now-x) * Tick)
 }
 
@@ -85,6 +98,9 @@ func (w *World) TickOf(t time.Time) int {
 	}
 	age := math.Round(float64(time.Since(t)) / float64(Tick))
 	x := float64(w.Now) - age
+	if RealTime {
+		x = math.Round(float64(t.Sub(w.T0)) / float64(Tick))
+	}
 	if x > FarFuture {
 		return FarFuture
 	}
@@ -96,8 +112,12 @@ func (w *World) TickOf(t time.Time) int {
 
 // Durations for thresholds are placed at half ticks so that neither scan latency nor truncation to
 // seconds can decide a comparison.
-func durAbove(ticks int) string { return fmt.Sprintf("%dm", ticks*60+30) } // "age > d"  <=> ageTicks > ticks
-func durBelow(ticks int) string { return fmt.Sprintf("%dm", ticks*60-30) } // "age < d"  <=> ageTicks < ticks
+func durAbove(ticks int) string { // "age > d"  <=> ageTicks > ticks
+	return fmt.Sprintf("%dms", (time.Duration(ticks)*Tick+Tick/2)/time.Millisecond)
+}
+func durBelow(ticks int) string { // "age < d"  <=> ageTicks < ticks
+	return fmt.Sprintf("%dms", (time.Duration(ticks)*Tick-Tick/2)/time.Millisecond)
+}
 
 func (c Cfg) Options(name string) controller.NodeGroupOptions {
 	o := controller.NodeGroupOptions{
@@ -424,6 +444,7 @@ func Build(seed int64, s *State) (*World, error) {
 		return nil, err
 	}
 	w.Now = s.Now
+	w.T0 = time.Now().Truncate(time.Second).Add(-time.Duration(s.Now) * Tick)
 	w.Alive = s.Alive
 	w.addNoise()
 	for _, g := range s.Gorder {
@@ -733,6 +754,15 @@ func (w *World) updateNode(id string, f func(*v1.Node)) bool {
 
 // TickEnv advances virtual time by one tick by moving every stored instant one tick into the past.
 func (w *World) TickEnv() {
+	if RealTime {
+		w.Now++
+		next := w.T0.Add(time.Duration(w.Now) * Tick)
+		if time.Now().After(next.Add(Tick / 8)) {
+			w.Late = true
+		}
+		time.Sleep(time.Until(next))
+		return
+	}
 	d := Tick
 	shiftNode := func(n *v1.Node) {
 		n.CreationTimestamp = metav1.NewTime(n.CreationTimestamp.Add(-d))
